@@ -1,6 +1,7 @@
 import GoCrypt.Proofs.Conc
-import GoCrypt.Props.C18
+import GoCrypt.Props.C18Core
 import GoCrypt.Gen.Facts
+import GoCrypt.Props.TypeCacheIR
 
 /-!
 # C08 — concurrent use is race free and returns the isolated results
@@ -302,4 +303,13 @@ theorem no_late_global_writes :
 #print axioms reg_load_last_store
 #print axioms reg_check_deterministic
 
+-- the type cache under concurrency, on the regenerated getTypeInfo (Props/TypeCacheIR.lean): any number of callers interleaved at the atomic Load/LoadOrStore steps
+-- each get the cold-cache result in a private record; no cached record is ever written after it was stored
+#print axioms GoCrypt.TypeCacheIR.small_steps_are_the_same_program
+#print axioms GoCrypt.TypeCacheIR.interleaved_calls_return_the_cold_result
+#print axioms GoCrypt.TypeCacheIR.interleaved_calls_all_return
+#print axioms GoCrypt.TypeCacheIR.two_concurrent_calls
+#print axioms GoCrypt.TypeCacheIR.returned_record_is_private
+#print axioms GoCrypt.TypeCacheIR.returned_record_stays_private
+#print axioms GoCrypt.TypeCacheIR.hit_returns_copy_of_cached_record
 end GoCrypt.C08
